@@ -713,7 +713,7 @@ class Ctx(_Base):
 
     # ---- inputs
     def fresh(self, name, lo, hi):
-        t = z3.BitVec(name, W)
+        t = z3.BitVec("in_" + name, W)
         c = z3.And(t >= lo, t <= hi)
         self.solver.add(c)
         if self.model is not None and self._holds_in_model(c) is not True:
@@ -725,13 +725,13 @@ class Ctx(_Base):
 
     def fresh_bool(self, name):
         """A free boolean input; forks immediately and returns a real bool."""
-        t = z3.Bool(name)
+        t = z3.Bool("in_" + name)
         self.decl.append((name, "bool", 0, 1, t))
         return self.branch(t)
 
     def fresh_choice(self, name, n):
         """A free choice among n alternatives; forks, returns a real int."""
-        t = z3.BitVec(name, W)
+        t = z3.BitVec("in_" + name, W)
         self.solver.add(z3.And(t >= 0, t < n))
         self.model = None
         self.decl.append((name, "int", 0, n - 1, t))
